@@ -54,6 +54,13 @@ func VerifC16Dispatcher() {
 	d.sendCh = make(chan Message, zzverif.Param("queue", 1))
 	handled := 0
 	d.RegisterHandler(&Ping{}, func(Message) {
+		// "done" tells the owner that no handler runs any more (the session's resources are torn
+		// down on it): it must not be signalled while requests are still being dispatched
+		select {
+		case <-d.Done():
+			zzverif.Fail("C12.dispatcher.no-request-dispatched-after-done-was-signalled")
+		default:
+		}
 		handled++
 		_ = d.Send(&Pong{}) // every request needs a reply
 	})
